@@ -293,7 +293,7 @@ func (x *Unit) frameGoals(st *State) (goals []frameGoal, ok bool) {
 	}
 	for _, k := range sortedKeys(st.ghost) {
 		g := st.ghost[k]
-		if k == "now" || k == "ev_spawn" || strings.HasPrefix(k, "res:") || strings.HasPrefix(k, "let:") || strings.HasPrefix(k, "calls:") {
+		if k == "now" || strings.HasPrefix(k, "res:") || strings.HasPrefix(k, "let:") || strings.HasPrefix(k, "calls:") {
 			continue
 		}
 		want, have := exp.ghost[k]
@@ -308,8 +308,14 @@ func (x *Unit) frameGoals(st *State) (goals []frameGoal, ok bool) {
 		}
 		gg, ww := g, want
 		if kv, isMap := x.u.mapKV[g.Sort]; isMap {
+			refKeyed := k == "chanClosed" || k == "chanSent" || k == "timerDeadline" || k == "lockHeld" || k == "onceDone"
 			goals = append(goals, frameGoal{key: "ghost " + k, idxSort: kv[0], at: func(kq T) T {
-				return Eq(Select(x.u.MapVal(gg.T), kq), Select(x.u.MapVal(ww.T), kq))
+				eq := Eq(Select(x.u.MapVal(gg.T), kq), Select(x.u.MapVal(ww.T), kq))
+				if refKeyed {
+					// attributes of objects allocated by this function are its own business
+					return Imp(Cmp("<=", x.proot(kq), x.entry.alloc), eq)
+				}
+				return eq
 			}})
 		} else {
 			goals = append(goals, frameGoal{key: "ghost " + k, at: func(T) T { return Eq(gg.T, ww.T) }})
